@@ -5,7 +5,7 @@ import sys
 
 from ..core import Check, ERR
 from ..enforce_cases import (EFFECTS, NOMATCH, MALLOW, MDENY, MOTHER, BADSIZE, BADTYPE, REQ, realise, observe,
-                             all_sequences)
+                             all_sequences, NESTED_RULES)
 
 PROP = "C01"
 
@@ -62,10 +62,38 @@ def run(chk, maxlen, nrandom, explain=False):
                 cases.append((effect, eidx, has_eft, outs, rules, bad_req, True, True, False, "arity"))
                 cases.append((effect, eidx, has_eft, outs, rules, (), True, True, False, "arity"))
 
+    n_plain = len(cases)
+    # F: the effect expression under test is the model's SECOND effect definition (e2), selected through an
+    #    EnforceContext, while the default definition e is a different one: every clause of the property (early
+    #    exit, final verdict, explanation) must follow e2
+    for effect, eidx in EFFECTS:
+        for deff, didx in EFFECTS:
+            if didx == eidx:
+                continue
+            for outs in all_sequences([NOMATCH, MALLOW, MDENY, MOTHER], max(2, maxlen - 2)):
+                cases.append((effect, eidx, True, outs, realise(outs, True, None, allow_fn=False), REQ, True, False, False,
+                              "context-e2", deff))
+            for _ in range(max(10, nrandom // 100)):
+                outs = rng.choices(range(6), weights=[4, 3, 3, 3, 1, 1], k=rng.randint(1, 10))
+                cases.append((effect, eidx, True, outs, realise(outs, True, rng), REQ, True, True, False, "context-e2", deff))
+    # G: a user-registered function in the matcher that itself calls enforce() (nested request matching its own
+    #    allow and deny rules): the nested call must not disturb the outer decision
+    for _ in range(max(200, nrandom // 4)):
+        effect, eidx = EFFECTS[rng.randrange(len(EFFECTS))]
+        outs = rng.choices(range(4), weights=[3, 3, 3, 2], k=rng.randint(1, 8))
+        rules = realise(outs, True, rng, allow_fn=True)
+        outs, rules = list(outs), list(rules)
+        for j, nr in enumerate(NESTED_RULES):
+            k = rng.randrange(len(rules) + 1)
+            rules.insert(k, list(nr) + [f"n{j}"])
+            outs.insert(k, NOMATCH)
+        cases.append((effect, eidx, True, outs, rules, REQ, True, "nest", False, "reentrant-function"))
+
     # run implementation
     reqs_model, reqs_spec, obs_impl, sides = [], [], [], []
-    for (effect, eidx, has_eft, outs, rules, req, enabled, use_fn, em, label) in cases:
-        obs, side = observe(effect, has_eft, rules, req, enabled, use_fn)
+    for c in cases:
+        (effect, eidx, has_eft, outs, rules, req, enabled, use_fn, em, label) = c[:10]
+        obs, side = observe(effect, has_eft, rules, req, enabled, use_fn, default_effect=(c[10] if len(c) > 10 else None))
         obs_impl.append(obs)
         sides.append(side)
         arity_ok = len(req) == 3
@@ -80,12 +108,12 @@ def run(chk, maxlen, nrandom, explain=False):
     rep_spec = chk.oracle.query(reqs_spec)
 
     for i, c in enumerate(cases):
-        (effect, eidx, has_eft, outs, rules, req, enabled, use_fn, em, label) = c
+        (effect, eidx, has_eft, outs, rules, req, enabled, use_fn, em, label) = c[:10]
         obs, side = obs_impl[i], sides[i]
         mod = rep_model[i]
         exp = spec_python(eidx, outs, enabled, len(req) == 3, em, rep_spec[i])
         case = dict(effect=effect, has_effect_column=has_eft, outcomes=outs, rules=rules, request=list(req),
-                    enabled=enabled, fn_matcher=use_fn, stratum=label)
+                    enabled=enabled, fn_matcher=use_fn, stratum=label, default_effect=(c[10] if len(c) > 10 else None))
         if not explain:
             # C01 looks at the decision / exception only
             def strip(o):
@@ -112,7 +140,9 @@ def run(chk, maxlen, nrandom, explain=False):
         if side["stored_len"] != len(rules):
             chk.disagree(case, side["stored_len"], len(rules), where="harness: rule not stored (duplicate?)")
     chk.traces += len(cases)
-    chk.extra["strata"] = dict(exhaustive=n_exh, random=nrandom, other=len(cases) - n_exh - nrandom)
+    chk.extra["strata"] = dict(exhaustive=n_exh, random=nrandom, other=n_plain - n_exh - nrandom,
+                               context_e2=sum(1 for c in cases if c[9] == "context-e2"),
+                               reentrant_function=sum(1 for c in cases if c[9] == "reentrant-function"))
     chk.extra["exhaustive_maxlen"] = maxlen
     chk.exhaustive = True
     # cross-check extraction against the kernel on a sample
@@ -136,7 +166,8 @@ def replay(chk, explain):
         print("replay file names a broken theorem/correspondence, not an input:", json.dumps(rec.get("broken"))[:800])
         sys.exit(1)
     eidx = dict(EFFECTS)[c["effect"]]
-    obs, side = observe(c["effect"], c["has_effect_column"], c["rules"], tuple(c["request"]), c["enabled"], c["fn_matcher"])
+    obs, side = observe(c["effect"], c["has_effect_column"], c["rules"], tuple(c["request"]), c["enabled"], c["fn_matcher"],
+                        default_effect=c.get("default_effect"))
     em = all(x == "" for x in c["request"]) if not c["rules"] else False
     mod = chk.oracle.query([(1, [c["effect"], c["enabled"], len(c["request"]) == 3, c["outcomes"], em])])[0]
     sp = chk.oracle.query([(2, [eidx, c["outcomes"]])])[0]
@@ -156,7 +187,9 @@ def main(prop=PROP, explain=False):
     chk = Check(prop)
     chk.rule = ("outcome sequences over {nomatch, match+allow, match+deny, match+other, bad-size, bad-type} realised as "
                 "real policies (unique tag per rule) x 5 effect expressions x with/without effect column; exhaustive up "
-                "to the stated length + random up to length 12 + empty-policy / disabled / arity strata; a case is "
+                "to the stated length + random up to length 12 + empty-policy / disabled / arity strata + the effect given as "
+                "second definition e2 through an EnforceContext (all pairs default/e2) + a matcher function that re-enters "
+                "enforce(); a case is "
                 "non-trivial when the enforcer is enabled, arity fits and at least one rule matches or errs; distinct "
                 "by (effect, column, outcome sequence)")
     chk.assumptions = [
